@@ -35,7 +35,8 @@ def main():
         if demo:
             r1 = subprocess.run(['/venv/bin/python', demo], env={**os.environ, 'PYTHONPATH': d}, capture_output=True, text=True, timeout=600)
             print('demo on patched tree: exit', r1.returncode, '|', (r1.stdout + r1.stderr).strip().splitlines()[-1:] )
-        env = {**os.environ, 'VERIF_REPO': d}
+        # evidence/ and replays/ of the checkout describe runs against /repo itself: keep seeded runs out of them
+        env = {**os.environ, 'VERIF_REPO': d, 'VERIF_EVIDENCE_DIR': d + '-out/evidence', 'VERIF_REPLAY_DIR': d + '-out/replays'}
         rc = subprocess.run([os.path.join(VERIF, 'check'), prop, '--tier', tier], env=env, capture_output=True, text=True, timeout=7200)
         lines = [l for l in rc.stdout.splitlines() if l.startswith(('VIOLATION', 'KNOWN-FINDING', 'ERROR', prop)) or l.startswith('  ')]
         print('check', prop, tier, 'exit', rc.returncode)
@@ -45,6 +46,7 @@ def main():
     finally:
         if '--keep' not in sys.argv:
             shutil.rmtree(d, ignore_errors=True)
+            shutil.rmtree(d + '-out', ignore_errors=True)
 
 if __name__ == '__main__':
     sys.exit(main())
